@@ -153,12 +153,15 @@ func NewReader(data io.ReaderAt, size int64, opt *ReaderOptions) (*Reader, error
 		if err == nil {
 			return false
 		}
+		var e *MalformedFileError
+		if !errors.As(err, &e) {
+			// Not a defect of the file (for example a failure of the
+			// byte source): there is nothing to recover from.
+			return true
+		}
 		if opt.ErrorHandling == ErrorHandlingReport {
-			var e *MalformedFileError
-			if errors.As(err, &e) {
-				r.Errors = append(r.Errors, e)
-				return false
-			}
+			r.Errors = append(r.Errors, e)
+			return false
 		}
 		return opt.ErrorHandling != ErrorHandlingRecover
 	}
